@@ -221,18 +221,36 @@ def applyPosX (bind : Bind) : List OptSpec → List (List String) → Nat → Op
     | .ok st' => applyPosX bind os sls (i + 1) ddg st'
   | _, _, _, _, st => .ok st
 
+/-- is the `--` of the run inside the match -/
+def ddTaken (cs : List Nat) (run : Run) : Bool :=
+  match run.dd with
+  | some a => !cs.isEmpty && decide (a ≤ cs.sum)
+  | none => false
+
+/-- index of the group that holds it -/
+def ddgOf (cs : List Nat) (run : Run) : Option Nat :=
+  match run.dd with
+  | some a => if ddTaken cs run then some (ddGroup cs a) else none
+  | none => none
+
+/-- something of the run is not consumed -/
+def leftOver (cs : List Nat) (run : Run) : Bool :=
+  decide (cs.sum < run.args.length) || (run.dd.isSome && !ddTaken cs run)
+
 /-- `consume_positionals` on a run.  Inside the loop it is called only on a non-empty run; after the last option it
 is called in any case.  What it does not consume goes to `extras`. -/
 def consumePosX (bind : Bind) (run : Run) (final : Bool) (st : PState) : Except PErr PState :=
   if run.args.isEmpty && run.dd.isNone && !final then .ok st
   else
-    let cs := matchPartial (st.ps.map OptSpec.arity) run.args.length st.ps.length
-    let ddTaken : Bool := match run.dd with | some a => !cs.isEmpty && decide (a ≤ cs.sum) | none => false
-    let ddg : Option Nat := match run.dd with | some a => if ddTaken then some (ddGroup cs a) else none | none => none
-    let left : Bool := decide (cs.sum < run.args.length) || (run.dd.isSome && !ddTaken)
-    match applyPosX bind st.ps (slices cs run.args) 0 ddg st with
+    match applyPosX bind st.ps
+        (slices (matchPartial (st.ps.map OptSpec.arity) run.args.length st.ps.length) run.args) 0
+        (ddgOf (matchPartial (st.ps.map OptSpec.arity) run.args.length st.ps.length) run) st with
     | .error e => .error e
-    | .ok st' => .ok { st' with ps := st.ps.drop cs.length, extras := st'.extras || left }
+    | .ok st' =>
+      .ok { st' with
+            ps := st.ps.drop (matchPartial (st.ps.map OptSpec.arity) run.args.length st.ps.length).length,
+            extras := st'.extras ||
+              leftOver (matchPartial (st.ps.map OptSpec.arity) run.args.length st.ps.length) run }
 
 /-! ### `consume_optional` -/
 
@@ -283,53 +301,64 @@ def singleDash (os : String) : Bool :=
   | _ :: c :: _ => c != '-'
   | _ => false
 
+/-- the chain of options one token stands for -/
+def chainOf (strs : List (String × Target)) (tg : Target) (os : String) (ex : Option String) :
+    Except PErr (List Target × Target × Option String) :=
+  match ex with
+  | none => .ok ([], tg, none)
+  | some e => cluster strs tg (singleDash os) e.toList
+
+/-- the arguments of the last option of the chain: its explicit argument, or what its `nargs` pattern matches at
+the front of the run that follows -/
+def takeArgs (last : Target) (lex : Option String) (run : Run) : Except PErr (List String × Run) :=
+  match lex with
+  | some e => .ok ([e], run)
+  | none =>
+    match arityT last with
+    | .zero => .ok ([], run)
+    | .one => (match run.avail with | t :: _ => .ok ([t], run.dropFront 1) | [] => .error .cliError)
+    | .plus =>
+      (match run.avail with
+       | _ :: _ => .ok (run.avail, run.dropFront run.avail.length)
+       | [] => .error .cliError)
+    | _ => .error (.unsupported "option arity")
+
+/-- the action of the last option; `_get_values` removes a `--` here too: `--opt=--` hands NO string to the action -/
+def lastAction (bind : Bind) (last : Target) (toks : List String) (st : PState) : Except PErr PState :=
+  match last with
+  | .help => .error .helpExit
+  | .opt o => takeAction bind o (toks.erase "--") st
+
 /-- `consume_optional`: the chain is worked out first (errors before any action), the last option takes its
 arguments from the explicit argument or from the run that follows, then the actions run in order -/
 def consumeOptX (bind : Bind) (strs : List (String × Target)) (tg : Target) (os : String) (ex : Option String)
     (run : Run) (st : PState) : Except PErr (PState × Run) :=
-  let chain : Except PErr (List Target × Target × Option String) :=
-    match ex with
-    | none => .ok ([], tg, none)
-    | some e => cluster strs tg (singleDash os) e.toList
-  match chain with
+  match chainOf strs tg os ex with
   | .error x => .error x
   | .ok (flags, last, lex) =>
-    let taken : Except PErr (List String × Run) :=
-      match lex with
-      | some e => .ok ([e], run)
-      | none =>
-        match arityT last with
-        | .zero => .ok ([], run)
-        | .one => (match run.avail with | t :: _ => .ok ([t], run.dropFront 1) | [] => .error .cliError)
-        | .plus =>
-          (match run.avail with
-           | _ :: _ => .ok (run.avail, run.dropFront run.avail.length)
-           | [] => .error .cliError)
-        | _ => .error (.unsupported "option arity")
-    match taken with
+    match takeArgs last lex run with
     | .error x => .error x
     | .ok (toks, run') =>
       match runFlags bind flags st with
       | .error x => .error x
       | .ok st1 =>
-        match last with
-        | .help => .error .helpExit
-        | .opt o =>
-          -- `_get_values` removes a `--` here too: `--opt=--` hands NO string to the action
-          match takeAction bind o (toks.erase "--") st1 with
-          | .error x => .error x
-          | .ok st2 => .ok (st2, run')
+        match lastAction bind last toks st1 with
+        | .error x => .error x
+        | .ok st2 => .ok (st2, run')
+
+/-- one option of the command line (an unknown one goes to `extras`) with the run that follows it -/
+def stepOpt (bind : Bind) (strs : List (String × Target)) (oi : OptItem) (run : Run) (st : PState) :
+    Except PErr (PState × Run) :=
+  match oi with
+  | .unknown => .ok ({ st with extras := true }, run)
+  | .known tg os ex => consumeOptX bind strs tg os ex run st
 
 /-! ### the loop -/
 
 def runSegs (bind : Bind) (strs : List (String × Target)) : List (OptItem × Run) → PState → Except PErr PState
   | [], st => .ok st
   | (oi, run) :: rest, st =>
-    let r : Except PErr (PState × Run) :=
-      match oi with
-      | .unknown => .ok ({ st with extras := true }, run)
-      | .known tg os ex => consumeOptX bind strs tg os ex run st
-    match r with
+    match stepOpt bind strs oi run st with
     | .error x => .error x
     | .ok (st1, run1) =>
       match consumePosX bind run1 rest.isEmpty st1 with
@@ -342,19 +371,19 @@ def requiredOK (p : PSpec) (b : Ns) : Bool :=
 
 /-- `parse_args`: classification of all tokens (an ambiguous prefix is an error at once), the loop, the positionals
 after the last option, then "the following arguments are required" / "unrecognized arguments" -/
-def engine (bind : Bind) (p : PSpec) (argv : List String) : Except PErr Ns :=
-  let items := itemize p.strings argv
+def engineItems (bind : Bind) (p : PSpec) (items : List Item) : Except PErr Ns :=
   if items.any Item.isAmbiguous then .error .cliError
   else
-    match segs items with
-    | (run0, ss) =>
-      match consumePosX bind run0 ss.isEmpty ⟨p.poss, [], false, []⟩ with
+    match consumePosX bind (segs items).1 (segs items).2.isEmpty ⟨p.poss, [], false, []⟩ with
+    | .error x => .error x
+    | .ok st0 =>
+      match runSegs bind p.strings (segs items).2 st0 with
       | .error x => .error x
-      | .ok st0 =>
-        match runSegs bind p.strings ss st0 with
-        | .error x => .error x
-        | .ok st =>
-          if !st.ps.isEmpty || st.extras || !requiredOK p st.ns then .error .cliError else .ok st.ns
+      | .ok st =>
+        if !st.ps.isEmpty || st.extras || !requiredOK p st.ns then .error .cliError else .ok st.ns
+
+def engine (bind : Bind) (p : PSpec) (argv : List String) : Except PErr Ns :=
+  engineItems bind p (itemize p.strings argv)
 
 /-! ### the actions -/
 
@@ -369,6 +398,9 @@ def bindBase : Bind := fun o toks =>
      | .opt, [] => (match o.default with | .str d => .ok [(o.dest, .str d)] | _ => .ok [(o.dest, o.defaultVal)])
      | .opt, [t] => .ok [(o.dest, .str t)]
      | .one, [t] => .ok [(o.dest, .str t)]
+     | .one, [] => .ok [(o.dest, .ints [])]
+     | .opt, _ => .error .cliError               -- (the pattern of `?` / of a single argument never matches two)
+     | .one, _ => .error .cliError
      | _, _ => .error (.unsupported "file option"))
   else
     match o.arity, toks with
@@ -557,6 +589,14 @@ def dispatchNamedX (tool : String) (ord : List String → Nat) (kind name : Stri
   match helpers.find? (fun h => h.kind == kind && h.name == name) with
   | some h => dispatchX tool ord h argv
   | none => .error (.unsupported "no such sub-command")
+
+/-- what the totality of the parser needs of an option: a modelled arity; a file type only on a single / optional
+argument; an optional takes no, one or `+` arguments; a composed action names its two sub-parsers -/
+def goodOpt (o : OptSpec) : Bool :=
+  o.arity != .other &&
+  (!isFileType o.ty || o.arity == .opt || o.arity == .one) &&
+  (o.positional || o.arity == .zero || o.arity == .one || o.arity == .plus) &&
+  (o.action != "compose_two_parsers" || o.compose.length == 2)
 
 def supportedNamesX (kind : String) : List String :=
   (cliSpecs.filter (fun s => s.kind == kind && s.supportedX)).map (·.name)
